@@ -433,6 +433,11 @@ class Unit:
             tagblock.append(("pub const %s: u64 = %d;" % (t, k + 1), ("generated", "tags", 0)))
         if idx is not None:
             self.out[idx:idx + 1] = tagblock
+            shift = len(tagblock) - 1
+            for fm in self.fns:
+                if fm["out_line_start"] > idx:
+                    fm["out_line_start"] += shift
+                    fm["out_line_end"] += shift
         elif allt:
             raise ExtractError("template uses policy tags but has no //@@TAGS marker")
         self.tag_ids = {t: k + 1 for k, t in enumerate(sorted(allt))}
